@@ -84,10 +84,20 @@ func drawClosePayload(r *eng.Run) []byte {
 	case 4:
 		code := validCodes[r.T.Int(sim.LCode, len(validCodes))]
 		bad := [][]byte{{0xff}, {0xc0, 0x80}, {'o', 'k', 0xe2, 0x82}, {0xed, 0xa0, 0x80}, {0xf4, 0x90, 0x80, 0x80}}[r.T.Int(sim.LUTF8, 5)]
-		return append([]byte{byte(code >> 8), byte(code)}, bad...)
+		// Sometimes behind a long valid prefix (payloads around the pool's
+		// smallest class).
+		pre := make([]byte, []int{0, 0, 55, 60, 100, 119}[r.T.Int(sim.LLen, 6)])
+		for i := range pre {
+			pre[i] = 'r'
+		}
+		return append(append([]byte{byte(code >> 8), byte(code)}, pre...), bad...)
 	case 5:
 		code := invalidCodes[r.T.Int(sim.LCode, len(invalidCodes))]
-		return []byte{byte(code >> 8), byte(code), 'x'}
+		reason := make([]byte, []int{1, 1, 57, 61, 100, 123}[r.T.Int(sim.LLen, 6)])
+		for i := range reason {
+			reason[i] = 'x'
+		}
+		return append([]byte{byte(code >> 8), byte(code)}, reason...)
 	default:
 		// Any invalid code below 5000 outside the open range.
 		var code int
@@ -100,7 +110,7 @@ func drawClosePayload(r *eng.Run) []byte {
 				break
 			}
 		}
-		n := r.T.Int(sim.LLen, 20)
+		n := []int{r.T.Int(sim.LLen, 20), 59, 63, 110, 123}[r.T.Int(sim.LLen, 5)]
 		reason := make([]byte, n)
 		FillUTF8(reason, 7)
 		return append([]byte{byte(code >> 8), byte(code)}, reason...)
